@@ -35,9 +35,10 @@ template <class App> std::string culprit_kinds(const Space<App> &S, const File &
     std::set<std::string> kinds;
     for(size_t i = 0; i < f.msgs.size(); ++i) {
         App fresh;
+        mark(vp::current_case(), "load-single-line", f.header + f.msgs[i]);
         int r = load(fresh, f.header + f.msgs[i]);
         vp::transition();
-        if(r != 1) { auto *p = find_param(S, f.paths[i]); kinds.insert(p ? p->kind : "unknown-path"); }
+        if(r != 1) { auto *p = find_param(S, f.paths[i]); kinds.insert((p ? p->kind : "unknown-path") + line_shape(f.msgs[i])); }
     }
     if(kinds.empty()) return "only-in-combination";
     std::string s;
@@ -48,7 +49,7 @@ template <class App> std::string culprit_kinds(const Space<App> &S, const File &
 template <class App> void check_state(const Space<App> &S, const Hist &h, bool full_negatives, uint64_t rot)
 {
     const std::string sid = std::string(App::name()) + "|" + Space<App>::hist_id(h);
-    vp::current_case() = sid;
+    mark(sid + "|save", "save", "");
     App inst;
     S.replay(inst, h);
     const std::string want_obs = inst.observable();
@@ -101,6 +102,7 @@ template <class App> void check_state(const Space<App> &S, const Hist &h, bool f
     if(vp::want(sid + "|load")) {
         vp::eval();
         App fresh;
+        mark(sid + "|load", "load", text);
         int r = load(fresh, text);
         vp::transition();
         if(r != (int)n) {
@@ -133,6 +135,7 @@ template <class App> void check_state(const Space<App> &S, const Hist &h, bool f
         if(!vp::want(sid + "|" + sub)) return;
         vp::eval();
         App fresh;
+        mark(sid + "|" + sub, sig.c_str(), file);
         int r = load(fresh, file);
         vp::transition();
         if(r >= 0) vp::violation(sig, sid + "|" + sub, "load_from_file returned " + std::to_string(r) + " for: " + vp::show(file.substr(0, 500)));
@@ -173,6 +176,28 @@ template <class App> void check_state(const Space<App> &S, const Hist &h, bool f
 
 static uint64_t g_index = 0;
 
+// supervisor side: name the class of a crash. For the application's own savefile every line is tried alone in
+// a forked probe, so that the signature names the parameter kinds whose lines crash the loader.
+template <class App> std::string crash_signature(const Space<App> &S, const Mark &m)
+{
+    std::string phase = m.phase, text(m.text, m.text_len);
+    if(phase == "save") return std::string("crash|save_to_file|") + App::name();
+    if(phase == "load" || phase == "load-single-line") {
+        File f = parse_file(text, App::name());
+        std::set<std::string> kinds;
+        for(size_t i = 0; i < f.msgs.size(); ++i) {
+            std::string one = f.header + f.msgs[i];
+            if(!survives([&] { App fresh; load(fresh, one); })) { auto *p = find_param(S, f.paths[i]); kinds.insert((p ? p->kind : "unknown-path") + line_shape(f.msgs[i])); }
+        }
+        std::string k;
+        for(auto &x : kinds) { if(!k.empty()) k += "+"; k += x; }
+        return "crash|load_from_file|own-savefile:" + (k.empty() ? std::string("only-in-combination") : k);
+    }
+    // negative files: phase is the signature of the reject clause
+    size_t b = phase.find('|');
+    return "crash-on-" + phase.substr(0, b) + (b == std::string::npos ? "" : phase.substr(b));
+}
+
 template <class App> void run_app(int depth, int root_depth, int full_neg_depth)
 {
     Space<App> S(vp::thorough());
@@ -181,6 +206,9 @@ template <class App> void run_app(int depth, int root_depth, int full_neg_depth)
     vp::bound(app + ".depth", "all histories of <= " + std::to_string(depth) + " messages from the default instance, <= " + std::to_string(root_depth) + " from each root state");
     vp::bound(app + ".negatives", "header/appname forms for every state; all 6 bad-line forms at every line position for states of depth <= " + std::to_string(full_neg_depth) +
               " and root states, one form (rotating with the state index) at every position for deeper states");
+    auto crashed = [&](size_t, const Mark &m, const std::string &how) {
+        vp::violation(crash_signature(S, m), m.case_id, how + " in phase " + m.phase + "; the rest of this state was skipped; file: " + vp::show(std::string(m.text, m.text_len).substr(0, 600)));
+    };
     if(vp::replaying()) {
         const std::string &id = vp::ctx().replay;
         size_t b1 = id.find('|'), b2 = id.find('|', b1 == std::string::npos ? 0 : b1 + 1);
@@ -188,25 +216,19 @@ template <class App> void run_app(int depth, int root_depth, int full_neg_depth)
         Hist h;
         if(!Space<App>::parse_hist(id.substr(b1 + 1, b2 - b1 - 1), h)) return;
         for(uint16_t c : h) if(!(c < S.ops.size() || (c >= ROOT0 && c - ROOT0 < (int)S.roots.size()))) return;
-        check_state(S, h, true, 0);
+        supervise(app, 1, [&](size_t) { check_state(S, h, true, 0); }, crashed);
         return;
     }
     S.explore(depth, root_depth);
     vp::bound(app + ".states", (long long)S.states.size());
-    bool capped = false;
-    size_t done = 0, mine = 0;
-    for(size_t i = 0; i < S.states.size(); ++i, ++g_index) {
-        if(!vp::mine(g_index)) continue;
-        ++mine;
-        if(capped) continue;
-        if(vp::deadline_passed()) { capped = true; continue; }
-        const Hist &h = S.states[i];
+    std::vector<std::pair<size_t, uint64_t>> todo;
+    for(size_t i = 0; i < S.states.size(); ++i, ++g_index) if(vp::mine(g_index)) todo.push_back({i, g_index});
+    supervise(app, todo.size(), [&](size_t k) {
+        const Hist &h = S.states[todo[k].first];
         bool rooted = !h.empty() && h[0] >= ROOT0;
         vp::state();
-        check_state(S, h, rooted ? h.size() <= 2 : (int)h.size() <= full_neg_depth, g_index);
-        ++done;
-    }
-    if(capped) vp::cap(app + ": deadline after " + std::to_string(done) + " of " + std::to_string(mine) + " states of this shard (discovery order, shallow first)");
+        check_state(S, h, rooted ? h.size() <= 2 : (int)h.size() <= full_neg_depth, todo[k].second);
+    }, crashed);
 }
 
 int main(int argc, char **argv)
